@@ -140,7 +140,15 @@ Proof. exact dia_refuses. Qed.
 Theorem C04_mux_deadlock_in_model : exists s, reachable mux_net s /\ stuck mux_net s.
 Proof. exact mux_hol_deadlock. Qed.
 
+(** the same mechanism in the shape that WAS reproduced on the engine (known finding F13): two
+    producer blocks L and R on one host, a two-input block with replicas a, b on another, one
+    connection per producer block; L's replicas deliver their markers to a before b, R's to b
+    before a (some destination flushed early); capacity 1, 3 + 3 producers *)
+Theorem C04_mux_join_deadlock_in_model : exists s, reachable mux_join_net s /\ stuck mux_join_net s.
+Proof. exact mux_join_deadlock. Qed.
+
 Print Assumptions C04_no_deadlock.
+Print Assumptions C04_mux_join_deadlock_in_model.
 Print Assumptions C04_dag_no_deadlock.
 Print Assumptions C04_dag_job_terminates.
 Print Assumptions C04_job_terminates.
